@@ -1,24 +1,33 @@
+// Command extract regenerates the fact tables of the translated properties
+// (C24, C38, C36) from the Go source tree given by --repo.
+//
+//	extract --prop c24 --repo /repo --coq /verif/coq/gen/C24_graph.v --json out.json
+//
+// It fails closed (exit status 2) when the tree does not type-check or an
+// anchor named in the property's configuration is missing.
 package main
 
 import (
-	"fmt"
+	"flag"
 	"os"
-
-	"golang.org/x/tools/go/callgraph/cha"
-	"golang.org/x/tools/go/packages"
-	"golang.org/x/tools/go/ssa"
-	"golang.org/x/tools/go/ssa/ssautil"
+	"runtime/pprof"
 )
 
 func main() {
-	cfg := &packages.Config{Mode: packages.LoadAllSyntax, Dir: os.Args[1], Env: append(os.Environ(), "GOFLAGS=-mod=mod", "GOPROXY=off")}
-	pkgs, err := packages.Load(cfg, "./...")
-	if err != nil {
-		panic(err)
+	prop := flag.String("prop", "", "c24|c38|c36")
+	repo := flag.String("repo", "/repo", "source tree")
+	coq := flag.String("coq", "", "output .v file")
+	js := flag.String("json", "", "output .json file (same facts, with names and positions, for the witness search)")
+	flag.Parse()
+	if pf := os.Getenv("EXTRACT_PROF"); pf != "" {
+		f, _ := os.Create(pf)
+		pprof.StartCPUProfile(f)
+		defer pprof.StopCPUProfile()
 	}
-	fmt.Println(len(pkgs), packages.PrintErrors(pkgs))
-	prog, _ := ssautil.AllPackages(pkgs, ssa.InstantiateGenerics)
-	prog.Build()
-	g := cha.CallGraph(prog)
-	fmt.Println(len(g.Nodes))
+	switch *prop {
+	case "c24":
+		runC24(*repo, *coq, *js)
+	default:
+		die("unknown --prop %q", *prop)
+	}
 }
